@@ -96,76 +96,41 @@ Theorem timedelta_shift_spec : forall t u, valid_time t = true -> 0 <= u < us_da
 Proof. exact timedelta_shift. Qed.
 Print Assumptions timedelta_shift_spec.
 
-(* ---- diff / t2 - t1.  The property as stated (signed microsecond difference) is FALSE of the current code:
-        Time.diff builds its totals from hours/minutes/seconds only.  Known finding diff-drops-microseconds. *)
-Theorem diff_spec_refuted :
-  exists a b, valid_time a = true /\ valid_time b = true /\ time_diff_total a b false <> tod b - tod a /\
-              time_diff_total a b true = 0 /\ tod b - tod a = 400.
-Proof. exact C20Facts.diff_spec_refuted. Qed.
-Print Assumptions diff_spec_refuted.
-
-(* what the current code returns, for all field values: the difference of the whole-second parts *)
-Theorem diff_current_code_spec : forall a b abs,
-  time_diff_total a b abs = signed_or_abs abs ((tod b - t_microsecond b) - (tod a - t_microsecond a)).
+(* ---- diff / t2 - t1: the signed microsecond difference of the times of day, its magnitude with abs=True *)
+Theorem diff_spec : forall a b abs, time_diff_total a b abs = signed_or_abs abs (tod b - tod a).
 Proof. exact diff_total_spec. Qed.
-Print Assumptions diff_current_code_spec.
-
-(* partial: the stated property holds on — and, for the signed form, only on — the region of equal microsecond fields;
-   missing for the full statement: the microsecond terms in us1/us2 (proposed_fixes/C20-diff-drops-microseconds.diff) *)
-Theorem diff_spec_partial : forall a b abs, t_microsecond a = t_microsecond b ->
-  time_diff_total a b abs = signed_or_abs abs (tod b - tod a).
-Proof. exact C20Facts.diff_spec_partial. Qed.
-Print Assumptions diff_spec_partial.
-
-Theorem diff_spec_exact_region : forall a b,
-  time_diff_total a b false = tod b - tod a <-> t_microsecond a = t_microsecond b.
-Proof. exact diff_exact_iff. Qed.
-Print Assumptions diff_spec_exact_region.
+Print Assumptions diff_spec.
 
 Theorem diff_abs_nonnegative : forall a b, 0 <= time_diff_total a b true.
 Proof. exact diff_abs_nonneg. Qed.
 Print Assumptions diff_abs_nonnegative.
 
-Theorem diff_error_below_one_second : forall a b abs, valid_time a = true -> valid_time b = true ->
-  Z.abs (time_diff_total a b abs - signed_or_abs abs (tod b - tod a)) < 1000000.
-Proof. exact C20Facts.diff_error_below_one_second. Qed.
-Print Assumptions diff_error_below_one_second.
+Theorem diff_antisymmetric : forall a b, time_diff_total a b false = - time_diff_total b a false.
+Proof. exact diff_antisym. Qed.
+Print Assumptions diff_antisymmetric.
 
-(* self - other and other - self (through __rsub__) are that same difference, with the same defect and the same region *)
-Theorem time_minus_time_partial : forall self other, t_microsecond self = t_microsecond other ->
+Theorem diff_below_one_day : forall a b abs, valid_time a = true -> valid_time b = true ->
+  Z.abs (time_diff_total a b abs) < us_day.
+Proof. exact diff_range. Qed.
+Print Assumptions diff_below_one_day.
+
+(* self - other and other - self (through __rsub__) *)
+Theorem time_minus_time_spec : forall self other,
   time_op_sub self other = tod self - tod other /\ time_op_rsub self other = tod other - tod self.
-Proof. exact op_sub_partial. Qed.
-Print Assumptions time_minus_time_partial.
+Proof. exact op_sub_spec. Qed.
+Print Assumptions time_minus_time_spec.
 
-(* ---- closest / farthest.  FALSE as stated of the current code (whole seconds of the truncated differences are compared).
-        Known finding closest-compares-whole-seconds. *)
-Theorem closest_by_distance_refuted :
-  exists t a b, valid_time t = true /\ valid_time a = true /\ valid_time b = true /\
-    dist t a < dist t b /\ time_closest t a b = b /\ time_farthest t b a = a /\ a <> b.
-Proof. exact C20Facts.closest_by_distance_refuted. Qed.
-Print Assumptions closest_by_distance_refuted.
-
-Theorem closest_by_distance_refuted_across_seconds :
-  exists t a b, valid_time t = true /\ valid_time a = true /\ valid_time b = true /\
-    dist t a < dist t b /\ time_closest t a b = b /\ a <> b.
-Proof. exact C20Facts.closest_by_distance_refuted_across_seconds. Qed.
-Print Assumptions closest_by_distance_refuted_across_seconds.
-
-(* what the current code does, for all field values *)
-Theorem closest_current_code_spec : forall t a b,
-  time_closest t a b = (if Z.abs (whole_seconds a - whole_seconds t) <? Z.abs (whole_seconds b - whole_seconds t) then a else b) /\
-  time_farthest t a b = (if Z.abs (whole_seconds a - whole_seconds t) >? Z.abs (whole_seconds b - whole_seconds t) then a else b).
-Proof. exact closest_model_spec. Qed.
-Print Assumptions closest_current_code_spec.
-
-(* partial: closest/farthest choose by the true microsecond distance when the three microsecond fields coincide
-   (ties go to the second argument); missing: sub-second resolution (proposed_fixes/C20-closest-compares-whole-seconds.diff) *)
-Theorem closest_by_distance_partial : forall t a b,
-  t_microsecond a = t_microsecond t -> t_microsecond b = t_microsecond t ->
+(* ---- closest / farthest choose by the microsecond distance (ties: the second argument) *)
+Theorem closest_by_distance : forall t a b,
   time_closest t a b = (if dist t a <? dist t b then a else b) /\
   time_farthest t a b = (if dist t a >? dist t b then a else b).
-Proof. exact C20Facts.closest_by_distance_partial. Qed.
-Print Assumptions closest_by_distance_partial.
+Proof. exact C20Facts.closest_by_distance. Qed.
+Print Assumptions closest_by_distance.
+
+Theorem closest_is_nearest : forall t a b,
+  dist t (time_closest t a b) = Z.min (dist t a) (dist t b) /\ dist t (time_farthest t a b) = Z.max (dist t a) (dist t b).
+Proof. exact C20Facts.closest_is_nearest. Qed.
+Print Assumptions closest_is_nearest.
 
 Theorem closest_returns_an_argument : forall t a b,
   (time_closest t a b = a \/ time_closest t a b = b) /\ (time_farthest t a b = a \/ time_farthest t a b = b).
